@@ -372,6 +372,168 @@ fn tparams_total(input: &[V]) -> Vec<V> {
     vec![tp_decode(input.first().copied().unwrap_or(0) & 1, &bytes)]
 }
 
+/// identity "AEAD" without tag, so that the real encrypt/protect/unprotect/decrypt pipeline can be
+/// run on hand-built 1-RTT packets
+struct NullKey;
+impl s2n_quic_core::crypto::Key for NullKey {
+    fn decrypt(&self, _pn: u64, _h: &[u8], _p: &mut [u8]) -> Result<(), s2n_quic_core::crypto::packet_protection::Error> {
+        Ok(())
+    }
+    fn encrypt(
+        &mut self,
+        _pn: u64,
+        _h: &[u8],
+        p: &mut s2n_quic_core::crypto::scatter::Buffer,
+    ) -> Result<(), s2n_quic_core::crypto::packet_protection::Error> {
+        p.flatten();
+        Ok(())
+    }
+    fn tag_len(&self) -> usize {
+        0
+    }
+    fn aead_confidentiality_limit(&self) -> u64 {
+        u64::MAX
+    }
+    fn aead_integrity_limit(&self) -> u64 {
+        u64::MAX
+    }
+    fn cipher_suite(&self) -> s2n_quic_core::crypto::tls::CipherSuite {
+        s2n_quic_core::crypto::tls::CipherSuite::Unknown
+    }
+}
+impl s2n_quic_core::crypto::OneRttKey for NullKey {
+    fn derive_next_key(&self) -> Self {
+        NullKey
+    }
+}
+
+/// header key with a sample-dependent mask (all five mask bytes vary with the packet)
+struct XorHeaderKey;
+impl XorHeaderKey {
+    fn mask(s: &[u8]) -> s2n_quic_core::crypto::HeaderProtectionMask {
+        let mut r = [0x5Au8, 0xC3, 0x3C, 0x96, 0x69];
+        for (i, b) in s.iter().enumerate() {
+            r[i % 5] ^= b.rotate_left((i % 7) as u32);
+        }
+        r
+    }
+}
+impl s2n_quic_core::crypto::HeaderKey for XorHeaderKey {
+    fn opening_header_protection_mask(&self, s: &[u8]) -> s2n_quic_core::crypto::HeaderProtectionMask {
+        Self::mask(s)
+    }
+    fn opening_sample_len(&self) -> usize {
+        16
+    }
+    fn sealing_header_protection_mask(&self, s: &[u8]) -> s2n_quic_core::crypto::HeaderProtectionMask {
+        Self::mask(s)
+    }
+    fn sealing_sample_len(&self) -> usize {
+        16
+    }
+}
+impl s2n_quic_core::crypto::OneRttHeaderKey for XorHeaderKey {}
+
+const SB_DCID: [u8; 8] = [0xD0, 0xD1, 0xD2, 0xD3, 0xD4, 0xD5, 0xD6, 0xD7];
+
+/// cleartext 1-RTT packet -> real encrypt (identity) + protect -> ProtectedPacket::decode ->
+/// ProtectedShort::unprotect -> EncryptedShort::decrypt.
+/// 0, key phase, spin, pn length, packet number | 1 decode | 2 unprotect | 3 connection error
+/// (PROTOCOL_VIOLATION: reserved bits) | 4 decrypt error
+fn sb_receive(mut packet: Vec<u8>) -> Vec<V> {
+    use s2n_quic_core::{connection::ProcessingError, crypto, packet::short::SpinBit, packet::KeyPhase};
+    let space = PacketNumberSpace::ApplicationData;
+    let hlen = 1 + SB_DCID.len();
+    let n = packet.len();
+    let pn_len = space.new_packet_number_len(packet[0]);
+    let wire_pn_len = pn_len.bytesize();
+    {
+        let mut e = EncoderBuffer::new(&mut packet);
+        e.set_position(n);
+        let zero = space.new_packet_number(VarInt::from_u8(0));
+        let (enc, _rest) = crypto::encrypt(&mut NullKey, zero, pn_len, hlen, crypto::scatter::Buffer::new(e))
+            .expect("identity encryption");
+        crypto::protect(&XorHeaderKey, enc).expect("sample present");
+    }
+    let remote = SocketAddress::default();
+    let info = ConnectionInfo::new(&remote);
+    let dcid_len = SB_DCID.len();
+    let short = match ProtectedPacket::decode(DecoderBufferMut::new(&mut packet), &info, &dcid_len) {
+        Ok((ProtectedPacket::Short(s), _)) => s,
+        _ => return vec![1],
+    };
+    let largest = space.new_packet_number(VarInt::from_u8(0));
+    let enc = match short.unprotect(&XorHeaderKey, largest) {
+        Ok(e) => e,
+        Err(_) => return vec![2],
+    };
+    let kp = enc.key_phase();
+    match enc.decrypt(&NullKey) {
+        Ok(clear) => {
+            assert_eq!(clear.destination_connection_id(), &SB_DCID[..], "dcid");
+            assert_eq!(clear.key_phase, kp, "key phase");
+            vec![
+                0,
+                (clear.key_phase == KeyPhase::One) as V,
+                (clear.spin_bit == SpinBit::One) as V,
+                wire_pn_len as V,
+                clear.packet_number.as_u64() as V,
+            ]
+        }
+        Err(ProcessingError::ConnectionError(_)) => vec![3],
+        Err(_) => vec![4],
+    }
+}
+
+/// case = 0, first byte (low 6 bits), pn        -> hand-built packet through the receive path
+/// case = 1, spin, key phase, pn length selector -> the crate's own Short encoder, then the same path
+fn shortbits(input: &[V]) -> Vec<V> {
+    use s2n_quic_core::packet::{
+        short::{Short, SpinBit},
+        KeyPhase,
+    };
+    let mut c = Cur::new(input);
+    let kind = c.next();
+    let space = PacketNumberSpace::ApplicationData;
+    let payload = [0xEEu8; 24];
+    if kind == 0 {
+        let first = 0x40 | (c.u64() as u8 & 0x3f);
+        let pn = c.u64();
+        let n = (first & 3) as usize + 1;
+        let mut packet = vec![first];
+        packet.extend_from_slice(&SB_DCID);
+        packet.extend((0..n).map(|i| (pn >> (8 * (n - 1 - i))) as u8));
+        packet.extend_from_slice(&payload);
+        sb_receive(packet)
+    } else {
+        let spin = if c.next() != 0 { SpinBit::One } else { SpinBit::Zero };
+        let key_phase = if c.next() != 0 { KeyPhase::One } else { KeyPhase::Zero };
+        let pn = [1u32, 200, 40_000, 10_000_000][(c.u64() % 4) as usize];
+        let largest = space.new_packet_number(VarInt::from_u8(0));
+        let tpn = space
+            .new_packet_number(VarInt::from_u32(pn))
+            .truncate(largest)
+            .expect("pn above largest");
+        let short = Short {
+            spin_bit: spin,
+            key_phase,
+            destination_connection_id: &SB_DCID[..],
+            packet_number: tpn,
+            payload: &payload[..],
+        };
+        let mut buf = vec![0u8; 64];
+        let written = {
+            let mut e = EncoderBuffer::new(&mut buf);
+            e.encode(&short);
+            e.len()
+        };
+        buf.truncate(written);
+        let mut out = vec![buf[0] as V];
+        out.extend(sb_receive(buf));
+        out
+    }
+}
+
 /// a payload of `n` zero bytes that is never materialized unless it is encoded into a real buffer
 struct Zeros(usize);
 
@@ -489,5 +651,6 @@ fn main() {
         ("tparams_total", tparams_total),
         ("pnx", pnx),
         ("fit", fit),
+        ("shortbits", shortbits),
     ]);
 }
